@@ -152,7 +152,63 @@ template<class T> static const T* front_of(const PoolList<T>&) { return 0; } // 
 template<class T> static const T* back_of(const PoolList<T>&) { return 0; }
 #endif
 
+template<class T> static const T* front_of(const Array<T>& l) { return &l.front(); }
+template<class T> static const T* back_of(const Array<T>& l) { return &l.back(); }
+// non-const front() / back()
+template<class T> static T* front_nc(List<T>& l) { return &l.front(); }
+template<class T> static T* back_nc(List<T>& l) { return &l.back(); }
+template<class T> static T* front_nc(Array<T>& l) { return &l.front(); }
+template<class T> static T* back_nc(Array<T>& l) { return &l.back(); }
+#ifdef SEQ_PL_FRONT
+template<class T> static T* front_nc(PoolList<T>& l) { return &l.front(); }
+template<class T> static T* back_nc(PoolList<T>& l) { return &l.back(); }
+#else
+template<class T> static T* front_nc(PoolList<T>& l) { return &*l.begin(); }
+template<class T> static T* back_nc(PoolList<T>& l) { typename PoolList<T>::Iterator it = l.end(); --it; return &*it; }
+#endif
+
 enum { MAXWALK = 1000000 };
+
+// The accessors that designate an element without changing the container (`acc ok` / `acc BAD` in the dump of
+// every variable): the non-const front() / back() and the const ones give the first / last element; for every
+// position operator-> and operator* (const and non-const Iterator) give the same element; the const-qualified
+// `Iterator operator++() const` / `operator--() const` give the iterators of the next / previous position; a
+// default-constructed Iterator can be assigned to.
+template<class C> static bool acc_ok(C& l)
+{
+  typedef typename C::Iterator It;
+  const C& cl = l;
+  bool ok = true;
+  It d;
+  d = cl.begin();
+  if(d != cl.begin()) ok = false;
+  long k = 0;
+  for(It it = cl.begin(), end = cl.end(); it != end && k < MAXWALK; ++it, ++k) {
+    const It cit = it;
+    if(it.operator->() != &*it) ok = false;
+    if(cit.operator->() != &*cit) ok = false;
+    if(&*cit != &*it) ok = false;
+    It nx = ++cit;   // Iterator operator++() const
+    It chk = it;
+    ++chk;
+    if(nx != chk) ok = false;
+    const It cnx = nx;
+    It bk = --cnx;   // Iterator operator--() const
+    if(bk != it) ok = false;
+    It mv = nx;
+    --mv;            // const Iterator& operator--()
+    if(mv != it) ok = false;
+  }
+  if(!cl.isEmpty()) {
+    It last = cl.end();
+    --last;
+    if(front_nc(l) != &*cl.begin()) ok = false;
+    if(back_nc(l) != &*last) ok = false;
+    if(front_of(cl) && front_of(cl) != front_nc(l)) ok = false;
+    if(back_of(cl) && back_of(cl) != back_nc(l)) ok = false;
+  }
+  return ok;
+}
 
 template<class C> static void dump_pub(const char* letter, int i, const C& l)
 {
@@ -176,6 +232,7 @@ template<class C> static void dump_pub(const char* letter, int i, const C& l)
   }
   if(j != 0) ok = false;
   printf(ok ? " rev ok" : " rev BAD");
+  printf(acc_ok(const_cast<C&>(l)) ? " acc ok" : " acc BAD");
   free(fw);
 }
 
@@ -409,6 +466,7 @@ template<class T> struct ArrayCase
       bool same = true;
       for(typename C::Iterator it = a.begin(), end = a.end(); it != end; ++it, ++k) { printf("%d ", val(*it)); if(&*it != raw + k) same = false; }
       printf(same && (usize)k == a.size() ? "]" : "] ptr BAD");
+      printf(acc_ok(*v[i]) ? " acc ok" : " acc BAD");
     }
     printf(" |");
     for(int i = 0; i < NV; ++i) printf(" A%d a %d", i, v[i]->_begin.item ? 1 : 0);
@@ -460,6 +518,11 @@ template<class T> struct ArrayCase
       free(buf);
       printf("-");
     }
+    else if(!strcmp(o, "appo")) { // append(&a[off], n): the buffer is a range of the array's own storage
+      long off = atol(t.v[2]), n = t.n > 3 ? atol(t.v[3]) : -1;
+      if(off < 0 || n < 0 || (usize)(off + n) > a->size()) printf("skip");
+      else { const T* raw = *a; a->append(raw + off, (usize)n); printf("-"); }
+    }
     else if(!strcmp(o, "remi")) { long k = atol(t.v[2]); if(k < 0) printf("skip"); else { a->remove((usize)k); printf("-"); } }
     else if(!strcmp(o, "rem")) {
       long k = atol(t.v[2]);
@@ -471,6 +534,8 @@ template<class T> struct ArrayCase
     else if(!strcmp(o, "find")) { typename C::Iterator r = a->find(T(atoi(t.v[2]))); print_it(*a, r); }
     else if(!strcmp(o, "clear")) { a->clear(); printf("-"); }
     else if(!strcmp(o, "swap")) { if(!idx(t.v[2], j)) printf("skip"); else { a->swap(*v[j]); printf("-"); } }
+    else if(!strcmp(o, "eq")) { if(!idx(t.v[2], j)) printf("skip"); else printf((*a == *v[j]) ? "true" : "false"); }
+    else if(!strcmp(o, "ne")) { if(!idx(t.v[2], j)) printf("skip"); else printf((*a != *v[j]) ? "true" : "false"); }
     else printf("?unknown-op");
     state_out();
   }
